@@ -309,6 +309,28 @@ class AppEnv:
         return self.set_stream_defaults(directory, self.DEFAULTS_FORM)
 
 
+    def add_legacy_names_stream(self, directory: str = 'lgcy', prefix: str = 'lgc') -> None:
+        """A stream whose MediaFile rows are named with the file extension ("lgc_v7.mp4"), the form
+        older databases hold and the media routes still resolve; Representation ids (and so the URLs of a
+        manifest) are the stems."""
+        files = {}
+        for stem in ('bbb_v7', 'bbb_a1', 'bbb_v7_enc', 'bbb_a1_enc'):
+            files[stem.replace('bbb', prefix)] = FIXTURES / 'bbb' / f'{stem}.mp4'
+        spk = self.add_stream(directory, title='Stream with legacy media names', files=files)
+        models = self.models
+        with self.app.app_context():
+            stream = models.Stream.get(pk=spk)
+            ref = None
+            for mf in stream.media_files:
+                mf.name = f'{mf.name}.mp4'
+                if mf.content_type == 'video' and ref is None and not mf.encrypted:
+                    ref = mf
+            models.db.session.commit()
+            stream.timing_reference = ref.as_stream_timing_reference()
+            models.db.session.commit()
+            models.db.session.remove()
+
+
 def parse_utc(text: str) -> _real_datetime.datetime:
     """Independent minimal xs:dateTime reader (used by oracles on manifest attributes)."""
     import re
